@@ -574,7 +574,7 @@ Proof.
   - (* dispatch_enabled = b *)
     unfold set_enabled in Hstep. destruct b.
     + destruct (evs_eqb (o_log ob) (queue st)) eqn:E1; cbn [andb] in Hstep; [|discriminate].
-      cbn [processors sorted] in Hstep.
+      unfold processors in Hstep. cbn [sorted] in Hstep.
       destruct (zs_eqb (o_procs ob) _) eqn:E2; cbn [andb] in Hstep; [|discriminate].
       destruct (o_flag ob); cbn [andb] in Hstep; [|discriminate].
       destruct (opt_eqb (o_ret ob) None); [|discriminate]. injection Hstep as <-.
@@ -582,7 +582,7 @@ Proof.
       rewrite E2, (RL_order_ok _ _ _ _ HRL).
       eexists. split; [reflexivity|]. repeat split; cbn; auto; apply HRL.
     + destruct (evs_eqb (o_log ob) []) eqn:E1; cbn [andb] in Hstep; [|discriminate].
-      cbn [processors sorted] in Hstep.
+      unfold processors in Hstep. cbn [sorted] in Hstep.
       destruct (zs_eqb (o_procs ob) _) eqn:E2; cbn [andb] in Hstep; [|discriminate].
       destruct (o_flag ob); cbn [andb] in Hstep; [|discriminate].
       destruct (opt_eqb (o_ret ob) None); [|discriminate]. injection Hstep as <-.
@@ -608,4 +608,75 @@ Proof.
   unfold accepts, holds, holds_b.
   destruct (run (c_hier c) (c_insts c) init (c_trace c)) as [st'|] eqn:E; [|discriminate].
   intros _. destruct (run_sim _ _ _ _ _ _ (R_init _) E) as (ss' & -> & _). reflexivity.
+Qed.
+
+(* ---- what [order_ok] says, in terms of lists ---------------------------- *)
+Lemma keys_of_inv r l : forall ks, keys_of r l = Some ks ->
+  exists L, l = map s_pid L /\ ks = map skey L /\ incl L r.
+Proof.
+  induction l as [|p l IH]; cbn [keys_of]; intros ks Hk.
+  - injection Hk as <-. exists []. repeat split; auto. intros x [].
+  - destruct (find_pid p r) as [s|] eqn:E; [|discriminate].
+    destruct (keys_of r l) as [ks'|]; [|discriminate]. injection Hk as <-.
+    destruct (IH ks' eq_refl) as (L & -> & -> & Hin).
+    unfold find_pid in E. apply find_some in E. destruct E as (Hs & E). apply Z.eqb_eq in E.
+    exists (s :: L). cbn [map]. repeat split; auto; [now rewrite E|].
+    intros x [<-|Hx]; auto.
+Qed.
+
+Lemma slt_trans a b c : slt a b -> slt b c -> slt a c.
+Proof. unfold slt, lex_lt, skey. cbn [fst snd]. lia. Qed.
+
+Lemma slt_irrefl a : ~ slt a a.
+Proof. unfold slt, lex_lt, skey. cbn [fst snd]. lia. Qed.
+
+Lemma increasing_strongly L : increasing (map skey L) = true -> StronglySorted slt L.
+Proof.
+  induction L as [|a L IH]; cbn [map increasing]; intros Hi; [constructor|].
+  destruct L as [|b L]; cbn [map] in *.
+  - constructor; constructor.
+  - apply andb_true_iff in Hi. destruct Hi as (Hab & Hi). specialize (IH Hi).
+    constructor; auto. constructor; [exact Hab|].
+    apply StronglySorted_inv in IH. destruct IH as (_ & Hall).
+    eapply Forall_impl; [|exact Hall]. intros c Hc. eapply slt_trans; eauto.
+Qed.
+
+Lemma slt_sorted_NoDup L : StronglySorted slt L -> NoDup L.
+Proof.
+  induction 1 as [|a L Hs IH Hall]; constructor; auto.
+  intros Hin. rewrite Forall_forall in Hall. exact (slt_irrefl a (Hall a Hin)).
+Qed.
+
+(* an observed list passes [order_ok] exactly when it enumerates the
+   registered set, each processor once, in strictly increasing (priority,
+   time of adding), all of different exact types *)
+Theorem order_ok_meaning I r l : order_ok I r l = true ->
+  exists L, l = map s_pid L /\ Permutation L r /\ StronglySorted slt L /\
+            NoDup (map (fun p => i_ty (inst_of I p)) l).
+Proof.
+  unfold order_ok. intros Ho. apply andb_true_iff in Ho. destruct Ho as (Ho & Hnd).
+  apply andb_true_iff in Ho. destruct Ho as (Hk & Hlen).
+  destruct (keys_of r l) as [ks|] eqn:E; [|discriminate].
+  destruct (keys_of_inv r l ks E) as (L & -> & -> & Hin).
+  pose proof (increasing_strongly L Hk) as HS.
+  exists L. repeat split; auto.
+  - apply NoDup_Permutation_bis; auto.
+    + now apply slt_sorted_NoDup.
+    + rewrite map_length in Hlen. lia.
+  - now apply nodupb_true.
+Qed.
+
+(* a frame: exactly the registered processors, each once, in that order, with dt *)
+Theorem process_meaning H I ss dt ob ss' :
+  spec_step H I ss (OProcess dt) ob = Some ss' ->
+  ss' = ss /\ o_exn ob = 0 /\
+  exists L, o_log ob = map (fun s => ERun (s_pid s) dt) L /\
+            Permutation L (reg ss) /\ StronglySorted slt L.
+Proof.
+  unfold spec_step. destruct (o_exn ob =? 0) eqn:Ex; cbn [negb]; [|discriminate].
+  destruct (evs_eqb _ _) eqn:E1; [|discriminate].
+  destruct (order_ok I (reg ss) (o_procs ob)) eqn:E2; [|discriminate].
+  intros [= <-]. apply evs_eqb_eq in E1.
+  destruct (order_ok_meaning _ _ _ E2) as (L & El & HP & HS & _).
+  repeat split; [lia|]. exists L. rewrite E1, El, map_map. auto.
 Qed.
